@@ -164,7 +164,7 @@ class Pool:
     def drain(self, wait=0.0):
         end = time.time() + wait
         while True:
-            rl, _, _ = select.select(self.socks, [], [], max(0.0, end - time.time()))
+            rl = N.wait_readable(self.socks, max(0.0, end - time.time()))
             if not rl:
                 return
             for s in rl:
